@@ -98,6 +98,23 @@ func c46(r *core.Report, p *core.Prog, thorough bool) {
 		return locked && deferred
 	}
 	for _, fn := range users {
+		if fn.Parent() != nil {
+			// a function literal (e.g. the predicate handed to sort.Search): it runs inside its
+			// enclosing method, whose locking is judged
+			if encl := core.EnclosingNamed(fn); encl != nil && encl != fn {
+				judged := false
+				for _, u := range users {
+					if u == encl {
+						judged = true
+					}
+				}
+				if !judged {
+					users = append(users, encl) // judge the enclosing method in the closure's place
+				}
+				r.Pass("C46.locked", "closure:"+fn.String(), p.Pos(fn.Pos()), "runs inside "+encl.Name())
+				continue
+			}
+		}
 		if fn.Signature.Recv() == nil {
 			// constructor: Buffer of a fresh object
 			fresh := true
